@@ -30,6 +30,13 @@ pub struct C07Plan {
     pub max_window: Option<u64>,
     pub history: Vec<Episode>,
     pub target: Episode,
+    /// the caller changes the window limit between the history and the target (the fresh decoder gets the final limit)
+    #[serde(default)]
+    pub target_max_window: Option<u64>,
+    /// after the history, `add_dict` registers a different dictionary under the id of `dicts[i]` (same tables and
+    /// length, content rotated); the fresh decoder gets the same registrations in the same order before any frame
+    #[serde(default)]
+    pub replace_dict: Option<usize>,
 }
 
 pub struct C07;
@@ -241,6 +248,55 @@ pub fn compare(reused: &Trace, fresh: &Trace) -> Option<(String, String)> {
     None
 }
 
+#[allow(clippy::too_many_arguments)]
+fn gen_target_frame(r: &mut Rng, prof: &GenProfile, pool: u64, all_dicts: &[DictSpec], dicts: &[DictSpec], history: &mut Vec<Episode>, target_forced: &mut Option<usize>) -> FrameSpec {
+    match r.below(10) {
+            0 | 1 if HAVE_REFERENCE => {
+                let d = r.pick(all_dicts).clone();
+                let mut spec = gen_ref_spec(r, 8 * 1024, Some(d.clone()), true);
+                // half of the frames of a *registered* dictionary are decoded with that dictionary forced after the
+                // init (most of those without a Dictionary_ID in the header: forcing is the only way to decode them),
+                // and half of these directly after a completed frame that named the same dictionary
+                if let Some(i) = dicts.iter().position(|x| *x == d) {
+                    if r.chance(1, 2) {
+                        *target_forced = Some(i);
+                        if r.chance(3, 4) {
+                            spec.dict_id = false;
+                        }
+                        if r.chance(1, 2) {
+                            let mut prev = gen_ref_spec(r, 4 * 1024, Some(d.clone()), true);
+                            prev.dict_id = true;
+                            let pf = FrameSpec::Reference(prev);
+                            if let Ok(f) = get_frame(&pf) {
+                                let mut program = gen_program(r, &f, true, false);
+                                program.finisher = true;
+                                let forced_too = if r.chance(1, 3) { program.front = FrontEnd::Reader; Some(i) } else { None };
+                                history.push(Episode { frame: pf, faults: vec![], program, force_dict: forced_too });
+                            }
+                        }
+                    }
+                }
+                FrameSpec::Reference(spec)
+            }
+            2..=4 => {
+                // synthetic frames exercise repeat offsets / RLE tables in the very first sequence
+                let mut s = None;
+                for _ in 0..8 {
+                    let c = crate::synth::gen_valid(r, 8 * 1024);
+                    if crate::synth::build(&c, &[], [1, 4, 8]).expect.is_ok() {
+                        s = Some(c);
+                        break;
+                    }
+                }
+                match s {
+                    Some(s) => FrameSpec::Synth(s),
+                    None => draw_frame_spec(r, prof, pool),
+                }
+            }
+            _ => draw_frame_spec(r, prof, pool),
+        }
+}
+
 impl Engine for C07 {
     type Plan = C07Plan;
 
@@ -276,50 +332,29 @@ impl Engine for C07 {
         }
         // the target
         let mut target_forced: Option<usize> = None;
-        let tframe = match r.below(10) {
-            0 | 1 if HAVE_REFERENCE => {
-                let d = r.pick(&all_dicts).clone();
-                let mut spec = gen_ref_spec(&mut r, 8 * 1024, Some(d.clone()), true);
-                // half of the frames of a *registered* dictionary are decoded with that dictionary forced after the
-                // init (most of those without a Dictionary_ID in the header: forcing is the only way to decode them),
-                // and half of these directly after a completed frame that named the same dictionary
-                if let Some(i) = dicts.iter().position(|x| *x == d) {
-                    if r.chance(1, 2) {
-                        target_forced = Some(i);
-                        if r.chance(3, 4) {
-                            spec.dict_id = false;
-                        }
-                        if r.chance(1, 2) {
-                            let mut prev = gen_ref_spec(&mut r, 4 * 1024, Some(d.clone()), true);
-                            prev.dict_id = true;
-                            let pf = FrameSpec::Reference(prev);
-                            if let Ok(f) = get_frame(&pf) {
-                                let mut program = gen_program(&mut r, &f, true, false);
-                                program.finisher = true;
-                                let forced_too = if r.chance(1, 3) { program.front = FrontEnd::Reader; Some(i) } else { None };
-                                history.push(Episode { frame: pf, faults: vec![], program, force_dict: forced_too });
-                            }
-                        }
-                    }
-                }
-                FrameSpec::Reference(spec)
+        let mut replace_dict: Option<usize> = None;
+        let replace_now = HAVE_REFERENCE && !dicts.is_empty() && r.chance(1, 12);
+        let tframe = if replace_now {
+            // a frame of dictionary X, then X is re-registered with other content under the same id, then a frame
+            // compressed with the new X
+            let i = r.usize_below(dicts.len());
+            let mut prev = gen_ref_spec(&mut r, 4 * 1024, Some(dicts[i].clone()), true);
+            prev.dict_id = true;
+            let pf = FrameSpec::Reference(prev);
+            if let Ok(f) = get_frame(&pf) {
+                let mut program = gen_program(&mut r, &f, true, false);
+                program.finisher = r.chance(3, 4);
+                history.push(Episode { frame: pf, faults: vec![], program, force_dict: None });
             }
-            2..=4 => {
-                // synthetic frames exercise repeat offsets / RLE tables in the very first sequence
-                let mut s = None;
-                for _ in 0..8 {
-                    let c = crate::synth::gen_valid(&mut r, 8 * 1024);
-                    if crate::synth::build(&c, &[], [1, 4, 8]).expect.is_ok() {
-                        s = Some(c);
-                        break;
-                    }
-                }
-                match s {
-                    Some(s) => FrameSpec::Synth(s),
-                    None => draw_frame_spec(&mut r, &prof, pool),
-                }
+            replace_dict = Some(i);
+            let mut spec = gen_ref_spec(&mut r, 8 * 1024, Some(DictSpec::Rotated { base: Box::new(dicts[i].clone()) }), true);
+            spec.dict_id = true;
+            if spec.dict_content_seed.is_none() {
+                spec.dict_content_seed = Some(r.next_u64());
             }
-            _ => draw_frame_spec(&mut r, &prof, pool),
+            FrameSpec::Reference(spec)
+        } else {
+            gen_target_frame(&mut r, &prof, pool, &all_dicts, &dicts, &mut history, &mut target_forced)
         };
         let target = match get_frame(&tframe) {
             Ok(f) => {
@@ -342,7 +377,21 @@ impl Engine for C07 {
             }
             Err(_) => Episode { frame: tframe, faults: vec![], program: Program { front: FrontEnd::Reader, ops: vec![], source: SourceScript::plain(), finisher: true, explicit_init: true, target: 0, prefix: 0 }, force_dict: None },
         };
-        C07Plan { dicts, max_window, history, target }
+        // the caller lowers / raises the window limit between frames
+        let target_max_window = if r.chance(1, 8) {
+            let w = get_frame(&target.frame).map(|f| f.window()).unwrap_or(1 << 17);
+            Some(match r.below(6) {
+                0 => w.saturating_sub(1),
+                1 => w,
+                2 => w / 2,
+                3 => 1024,
+                4 => w + 1,
+                _ => w * 2,
+            })
+        } else {
+            None
+        };
+        C07Plan { dicts, max_window, history, target, target_max_window, replace_dict }
     }
 
     fn exec(&self, plan: &C07Plan, stats: &mut Stats, log: Option<&mut Vec<Value>>) -> Result<RunOutcome, HarnessError> {
@@ -391,6 +440,21 @@ impl Engine for C07 {
         }
         stats.inc(&format!("history.len{}", plan.history.len()));
         let mut fresh = new_decoder(&plan.dicts, plan.max_window)?;
+        if let Some(i) = plan.replace_dict {
+            if i < plan.dicts.len() {
+                let v = load_dict(&DictSpec::Rotated { base: Box::new(plan.dicts[i].clone()) })?;
+                for dec in [&mut reused, &mut fresh] {
+                    let parsed = Dictionary::decode_dict(&v.raw).map_err(|e| HarnessError(format!("rotated dictionary does not parse: {e:?}")))?;
+                    dec.add_dict(parsed).map_err(|e| HarnessError(format!("add_dict failed: {e:?}")))?;
+                }
+                stats.inc("history.dictionary_replaced_under_same_id");
+            }
+        }
+        if let Some(m) = plan.target_max_window {
+            reused.set_max_window_size(m);
+            fresh.set_max_window_size(m);
+            stats.inc("history.window_limit_changed_before_target");
+        }
         let (f, t_reused) = run_episode(&mut reused, &plan.target, &ids)?;
         let (_, t_fresh) = run_episode(&mut fresh, &plan.target, &ids)?;
         steps += t_reused.events.len() as u64 * 2;
@@ -447,6 +511,9 @@ impl Engine for C07 {
             t.faults = fl;
             out.push(C07Plan { target: t, ..plan.clone() });
         }
+        if plan.target_max_window.is_some() {
+            out.push(C07Plan { target_max_window: None, ..plan.clone() });
+        }
         if plan.max_window.is_some() {
             out.push(C07Plan { max_window: None, ..plan.clone() });
         }
@@ -486,6 +553,8 @@ impl Engine for C07 {
             "history.failed_in_reset",
             "history.force_dict",
             "target.dictionary_forced_after_init",
+            "history.dictionary_replaced_under_same_id",
+            "history.window_limit_changed_before_target",
             "fault.stored_bytes_in_history",
             "fault.source_eof_in_history",
             "fault.source_error_in_history",
